@@ -8,6 +8,7 @@ import (
 	"github.com/jhalter/mobius/hotline"
 	"golang.org/x/text/encoding/charmap"
 	"io"
+	"math"
 	"math/big"
 	"os"
 	"path"
@@ -980,6 +981,12 @@ func HandleTranOldPostNews(cc *hotline.ClientConn, t *hotline.Transaction) (res 
 
 	newsPost := fmt.Sprintf(newsTemplate+"\r", cc.UserName, time.Now().Format(newsDateTemplate), t.GetField(hotline.FieldData).Data)
 	newsPost = strings.ReplaceAll(newsPost, "\n", "\r")
+
+	// The formatted post is announced to every client in a single field, whose size prefix has 16 bits: a post that does
+	// not fit would be sent with a wrapped size and damage every client's stream.
+	if len(newsPost) > math.MaxUint16 {
+		return cc.NewErrReply(t, "The post is too long.")
+	}
 
 	err := cc.Server.PostMessageBoard([]byte(newsPost))
 	if err != nil {
